@@ -613,6 +613,16 @@ class SI:
             raise Inconclusive('symbolic modulo with non-constant or non-positive modulus')
         return type(self)(self.e % m)      # SMT-LIB mod with positive divisor == Python %
 
+    def fmod(self, o):
+        """C fmod (sign of the dividend), as np.fmod on integers"""
+        m = zi(o)
+        if not z3.is_int_value(m) or m.as_long() <= 0:
+            raise Inconclusive('symbolic fmod with non-constant or non-positive modulus')
+        return type(self)(z3.If(self.e >= 0, self.e % m, -((-self.e) % m)))
+
+    def remainder(self, o):
+        return self % o
+
     def __floordiv__(self, o):
         m = zi(o)
         if not z3.is_int_value(m) or m.as_long() <= 0:
